@@ -1,14 +1,15 @@
 """C08 - feedback delivers each value exactly one smallest time step later."""
 import engine_common as ec
 import engine_plugin as ep
+import c08shape as fs
 
 ID = "C08"
-LEAN_MODULES = ['HgVerif.Props.C08', 'HgVerif.Model.Engine', 'HgVerif.Model.Extracted']
-THEOREMS = ['HgVerif.Feedback.feedback_delay', 'HgVerif.Feedback.never_same_cycle', 'HgVerif.Feedback.initial_value', 'HgVerif.Feedback.quiescent', 'HgVerif.Feedback.run_none_eq_shifted']
-CXX_TARGETS = ['hgv_engine']
+LEAN_MODULES = ['HgVerif.Props.C08', 'HgVerif.Model.Engine', 'HgVerif.Model.Extracted'] + list(fs.LEAN_MODULES)
+THEOREMS = ['HgVerif.Feedback.feedback_delay', 'HgVerif.Feedback.never_same_cycle', 'HgVerif.Feedback.initial_value', 'HgVerif.Feedback.quiescent', 'HgVerif.Feedback.run_none_eq_shifted'] + list(fs.THEOREMS)
+CXX_TARGETS = ['hgv_engine'] + list(fs.CXX_TARGETS)
 USES_EXTRACT = True
 RULE = 'graphs with 1-2 feedback loops (with/without initial value, reader active or passive on the feedback, loops ticking together), random producer histories incl. writes on consecutive smallest steps; sinks on producer and reader; non-trivial = >=2 cycles with user code; distinct by program text'
-TRUSTED = ['TS[int] feedback only; collection-shaped feedback relies on capture/apply of deltas (C20)']
+TRUSTED = ['engine programs use TS[int] feedback; structured feedback (TSB/TSL/TSS/TSD) is exercised by the fbshape stream'] + list(fs.TRUSTED)
 ASSUMPTIONS = ["the source ranks before its readers and the sink after the producer (C01); the sink's request for t+1 is honoured (C02)"]
 TECHNIQUE = 'Lean 4 proof (single-slot feedback state machine: delivered stream = writes shifted by MIN_TD, by induction over arbitrary cycle lists) + shared definitions with the engine model + differential correspondence + reference monitor'
 LEVEL_TEXT = "Kernel-checked for every write history: the reader's ticks are exactly the producer's writes one smallest step later, in order, without loss or duplication; never in the producing cycle; an initial value arrives at the start time; no writes, no deliveries (quiescence). The engine model uses these same step functions and is compared with the runtime."
@@ -18,12 +19,32 @@ LEVEL_NOTE = 'Trusted: Lean kernel; model tied by correspondence. The tie on eva
 def streams(rng, tier, seed):
     n = 120 if tier == "quick" else 3000
     progs = [ec.gen_feedback(rng) for _ in range(n)]
-    return [ec.engine_stream("engine-feedback", progs)]
+    return [ec.engine_stream("engine-feedback", progs)] + fs.streams(rng, tier, seed)
 
 
-monitor = ep.monitor_for(ID)
-features = ep.features
-alarm_filter = ep.alarm_filter
-nontrivial = ep.nontrivial
+_mon = ep.monitor_for(ID)
 
-valid_case = ep.valid_case
+
+def monitor(stream, case, out):
+    return fs.monitor(stream, case, out) if stream.startswith("fbshape-") else _mon(stream, case, out)
+
+
+def features(stream, case, out):
+    return fs.features(stream, case, out) if stream.startswith("fbshape-") else ep.features(stream, case, out)
+
+
+def nontrivial(stream, case, out):
+    return fs.nontrivial(stream, case, out) if stream.startswith("fbshape-") else ep.nontrivial(stream, case, out)
+
+
+def alarm_filter(stream, case, impl_out, model_out):
+    if stream.startswith("fbshape-"):
+        return True, []          # the comparison is exact
+    return ep.alarm_filter(stream, case, impl_out, model_out)
+
+
+def valid_case(stream, case, impl_out, model_out):
+    if stream.startswith("fbshape-"):
+        f = getattr(fs, "valid_case", None)
+        return f(stream, case, impl_out, model_out) if f else True
+    return ep.valid_case(stream, case, impl_out, model_out)
